@@ -795,8 +795,9 @@ impl Check for C08 {
     fn probes(&self) -> Vec<&'static str> {
         vec![
             "fault_in_state.idle",
+            "fault_in_state.noidle_wait",
             "fault_in_state.in_flight",
-            "fault_in_state.window_or_transit",
+            "fault_in_state.window",
             "sweep_bases",
             "noidle_race",
             "cancel_in_flight_or_sent",
